@@ -433,6 +433,16 @@ def pack_into_passes(nng, arch, verbose_packing=False):
     def can_pack(inp, curr_op):
         if len(inp.ops) == 1:
             next_op = inp.ops[0]
+            # A RELU-type post operation can share a pass with an operator that already has a RELU-type fused
+            # activation (the two clamps are intersected when the commands are generated), but not with one whose fused
+            # activation is a table lookup/tanh/sigmoid: the clamp would have to be applied after that function
+            if (
+                curr_op.type in activation_ops
+                and next_op.activation is not None
+                and not next_op.activation.op_type.is_relu_op()
+            ):
+                return False
+
             for outp in next_op.outputs:
                 consumers = outp.consumers()
                 if len(consumers) > 1 or (len(consumers) == 1 and consumers[0] != curr_op):
